@@ -287,6 +287,52 @@ def rule_u4(repo, col):
     col.decide("U4", m, tp[0] if tp else f.node, len(tp) >= 1, "the Prolog format prints gp.to_prolog()", "the pl format must print gp.to_prolog()", **({} if tp else {"construct": "def main: pl output", "function": "main"}))
 
 
+def rule_u5(repo, col):
+    """export path (to_prolog -> enum_clauses -> extract_ads / get_body / get_name ...): a memo table is keyed by every argument its stored value depends on"""
+    from .. import memo
+    from ..index import ClassInfo
+
+    if not memo.selftest():
+        raise AnalysisError("memo-key rule does not fire on its positive example")
+    c = repo.cls("problog.formula", "LogicFormula")
+    mro = [k for k in repo.mro(c) if isinstance(k, ClassInfo)]
+
+    def method(name):
+        for k in mro:
+            if name in k.methods:
+                return k.methods[name]
+        return None
+
+    todo, seen = ["to_prolog"], {}
+    while todo:
+        nm = todo.pop()
+        if nm in seen:
+            continue
+        f = method(nm)
+        if f is None:
+            continue
+        seen[nm] = f
+        for x in ast.walk(f.node):
+            if isinstance(x, ast.Call) and isinstance(x.func, ast.Attribute) and norm(x.func.value) == "self" and x.func.attr not in seen:
+                todo.append(x.func.attr)
+    if not {"enum_clauses", "get_body", "extract_ads"} <= set(seen):
+        raise AnalysisError("LogicFormula.to_prolog: export path not found (%s)" % sorted(seen))
+    n = 0
+    for nm, f in sorted(seen.items()):
+        stores = memo.keyed_memo_stores(f.node, f.params, lambda call: (method(call.func.attr).node if isinstance(call.func, ast.Attribute) and norm(call.func.value) == "self"
+                                                                          and method(call.func.attr) is not None else None))
+        for st, table, key, call, missing in stores:
+            n += 1
+            col.decide("U5", f.module, st, not missing, "%s: memo %s[%s] is keyed by all arguments of %s" % (f.qualname, table, key, norm(call.func)),
+                       "%s stores %s under %s[%s], but the value also depends on %s, which is not part of the key: the first caller's answer is served to callers that pass another %s - "
+                       "get_body(node, parent_name=...) answers with the node's NAME for one parent and with its defining BODY for another, so a cached name turns the clause 'r :- \\+a, b.' "
+                       "into 'r :- r.' in the exported program" % (f.qualname, norm(call)[:70], table, key, ", ".join(missing), ", ".join(missing)),
+                       construct="%s: memo %s keyed by %s, missing %s" % (f.qualname, table, key, ", ".join(missing)), function=f.qualname)
+    col.ok("U5", c.module, c.node, "export path scanned for memo tables: %d functions, %d memo stores; positive example of the rule matched" % (len(seen), n),
+           construct="LogicFormula export path: memo-key scan", function="LogicFormula.to_prolog")
+    col.floor("U5.export_functions", len(seen), 6)
+
+
 def run(repo, col):
     col.rule("U1", "DIMACS writer: every internal clause emitted exactly once, no weight column, header counts")
     col.rule("U2", "to_dimacs text format")
@@ -296,3 +342,5 @@ def run(repo, col):
     rule_u2(repo, col)
     rule_u3(repo, col)
     rule_u4(repo, col)
+    col.rule("U5", "export path: memo tables keyed by every argument the value depends on")
+    rule_u5(repo, col)
